@@ -1,7 +1,7 @@
 (* C17: interfaces are isolated (sequential: proved; concurrent registration: refuted = known finding).
    Statements only: each theorem restates the full type of a lemma proved in coq/proofs and is closed by
    `exact`; Print Assumptions beneath.  Regenerate with bin/genprops.py after a lemma changes. *)
-From LLTD Require Import BlockFun Isolation RegistryProofs.
+From LLTD Require Import BlockFun Isolation SystemRefinement RegistryProofs.
 
 Theorem C17_interleaving_isolated :
   forall (cfgs : N -> pcfg) (g : gcfg) (mtus : N -> N) (l : list (N * list N)) (m : smap) (ctx : N),
@@ -15,6 +15,36 @@ Theorem C17_registry_isolated :
   forall (r : registry) (c1 c2 : N) (s : ist), c1 <> c2 -> reg_find (reg_set r c1 s) c2 = reg_find r c2.
 Proof. exact reg_isolation. Qed.
 Print Assumptions C17_registry_isolated.
+
+Theorem C17_whole_system_refines_pure_histories :
+  forall (junk : N) (cfgs : N -> pcfg) (g : gcfg) (mtus : N -> N),
+  cfgs_nominal cfgs mtus ->
+  forall (l : list BlockSafe.fop) (r : registry) (w : world) (bl : nat) (bb : N),
+  Forall (fop_len cfgs) l ->
+  BlockSafe.ledger_reg bl bb r w ->
+  exists (r' : registry) (w' : world),
+  BlockSafe.run_frames no_fail no_fail junk cfgs g r l w = Ok r' w' /\
+  w_trace w' = rev (map snd (snd (sys_run cfgs g mtus (reg_state r) (fframes l)))) ++ w_trace w /\
+  (forall ctx : N, reg_state r' ctx = fst (sys_run cfgs g mtus (reg_state r) (fframes l)) ctx) /\
+  BlockSafe.ledger_reg bl bb r' w' /\ w_now w' = (w_now w + fadv l)%N.
+Proof. exact system_refinement_clock. Qed.
+Print Assumptions C17_whole_system_refines_pure_histories.
+
+Theorem C17_on_the_buffer_level_model :
+  forall (junk : N) (cfgs : N -> pcfg) (g : gcfg) (mtus : N -> N),
+  cfgs_nominal cfgs mtus ->
+  forall (l : list (N * list N)) (r : registry) (w : world) (bl : nat) (bb : N),
+  Forall (frame_len cfgs) l ->
+  BlockSafe.ledger_reg bl bb r w ->
+  exists (r' : registry) (w' : world) (tagged : list (N * action)),
+  BlockSafe.run_frames no_fail no_fail junk cfgs g r
+  (map (fun p : N * list N => BlockSafe.FFrame (fst p) (snd p)) l) w = Ok r' w' /\
+  w_trace w' = rev (map snd tagged) ++ w_trace w /\
+  (forall ctx : N,
+  acts_of ctx tagged = snd (f_run ctx (cfgs ctx) g (mtus ctx) (reg_state r ctx) (frames_of ctx l)) /\
+  reg_state r' ctx = fst (f_run ctx (cfgs ctx) g (mtus ctx) (reg_state r ctx) (frames_of ctx l))).
+Proof. exact C17_buffer_level. Qed.
+Print Assumptions C17_on_the_buffer_level_model.
 
 Theorem C17_registry_sequential_ok :
   let s := Registry.rrun (Registry.rstate0 1 2) [false; false; false; false; true; true; true; true] in
